@@ -330,15 +330,6 @@ Proof.
   cbv [hdr_ok h_klen h_elen h_total rd16 rd32 drop skipn N.to_nat Pos.to_nat Pos.iter_op Nat.add nth]. lia.
 Qed.
 
-(* sizes are within what the header's fields can express *)
-Definition aev_bounded (a : aev) : Prop :=
-  match a with
-  | AKey k => k < 65536
-  | AData t e k n => t < 4294967296 /\ e < 256 /\ k < 65536
-  | _ => True
-  end.
-Definition aev_good (a : aev) : Prop := aev_consistent a /\ aev_bounded a.
-
 Lemma aev_good_trivial a : match a with AKey _ | AData _ _ _ _ => False | _ => True end -> aev_good a.
 Proof. destruct a; intros H; try contradiction; split; exact I. Qed.
 
@@ -423,11 +414,6 @@ Proof.
 Qed.
 
 (* ---- inconsistent frames ---- *)
-Definition is_set_op (op : N) : bool :=
-  existsb (N.eqb op) [opSet; opSetQ; opAdd; opAddQ; opReplace; opReplaceQ].
-Definition is_cat_op (op : N) : bool :=
-  existsb (N.eqb op) [opAppend; opAppendQ; opPrepend; opPrependQ].
-
 Lemma is_set_op_spec op : is_set_op op = true -> exists m q, op = set_opcode m q.
 Proof.
   unfold is_set_op. cbn [existsb]. intros H.
@@ -465,4 +451,17 @@ Proof.
   - apply is_cat_op_spec in S. destruct S as (fr & q & E).
     rewrite (dispatch_cat true fr q h s1 E). unfold bin_cat. cbn [andb].
     destruct (h_total h <? h_klen h) eqn:G; [reflexivity | lia].
+Qed.
+
+Theorem bin_resegmented rs (segs : list bytes) :
+  forallb wf_bin rs = true -> concat segs = concat (map enc_bin rs) ->
+  parse_all parse_bin (concat segs) = Some rs.
+Proof. apply parse_all_resegmented; [exact bin_roundtrip | exact enc_bin_nonempty]. Qed.
+
+Theorem bin_never_spins s : exists l, serve parse_bin s = Some l.
+Proof. apply serve_total, bin_progress. Qed.
+
+Theorem bin_alloc_sizes s : bytes_ok s -> Forall (fun a => asize a <= adeclared a) (snd (parse_bin s)).
+Proof.
+  intros B. eapply Forall_impl; [|apply bin_alloc, B]. intros a [C _]. apply aev_consistent_size, C.
 Qed.
